@@ -178,3 +178,23 @@ def _(c):
 
     c.returns(post)
     c.timeout_s = 60
+
+
+# ------------------------------------------------------------------------------------------ ISO 8601
+@contract("harness.cal:lemma", "C16", name="lemma: the (4, MONDAY, regular) rule is ISO 8601 -- week 1 is the Monday-based week containing the year's first Thursday (4 January)")
+def _(c):
+    c.ghost("cal", AbsCalG()).ghost("y", Int())
+    rule = Obj(
+        "pyoda_time.calendars._simple_week_year_rule:_SimpleWeekYearRule",
+        {"_SimpleWeekYearRule__min_days_in_first_week": Const(4), "_SimpleWeekYearRule__first_day_of_week": Const(1), "_SimpleWeekYearRule__irregular_weeks": Const(False)},
+    )
+    c.ghost("rule", rule)
+    c.requires(lambda a: And(a.y >= a.cal.min_year, a.y <= a.cal.max_year))
+
+    def post(a, r):
+        w = W(a.rule, a.cal.cid, a.y)
+        jan4 = CA.soy(a.cal.cid, a.y) + 3
+        return And(dow(w) == 1, w <= jan4, jan4 <= w + 6, Or(*[And(dow(w + k) == 4, w + k >= CA.soy(a.cal.cid, a.y), w + k <= CA.soy(a.cal.cid, a.y) + 6) for k in range(7)]))
+
+    c.returns(post)
+    c.crosscheck = 0
